@@ -7,6 +7,7 @@ RULE = ("random point clouds / meshes / keyframe animations (0..400 points, 0..3
         "encoded by the real sequential encoders: the model encoder must reproduce the bytes (symbol-scheme choice read off the stream); "
         "every stream, with trailing junk and in 2-4 corrupted variants, goes through the real and the model decoder, which must agree on "
         "accept/reject and on every decoded value; distinct by case text")
+FAIL_PREFIXES = ["C01", "C04/C01", "D10", "D11"]
 NEEDS = ["Model/SeqCodecInst.vo", "Base/DriverSupport.vo"]
 
 def corr_runs(ctx):
